@@ -1246,7 +1246,7 @@ VP("C07-R2C-mut-unreadable-regenerates", "C07", "refactored reader: D24 re-opene
 V("C07-unreadable-key-regenerated", "C07", "D24 re-opened: every OSError from reading the key file regenerates it", ENC,
   "            if os.path.exists(filename):\n                # the key file is there but cannot be read: never replace an existing key\n                raise\n", "")
 V("C08-lenient-base64", "C08", "D25 re-opened: stored ciphertext decoded leniently", "cincoconfig/fields/secure_field.py",
-  "ciphertext = base64.b64decode(ciphertext_b64, validate=True)", "ciphertext = base64.b64decode(ciphertext_b64)")
+  '                    "".join(ciphertext_b64.split()), validate=True\n', '                    "".join(ciphertext_b64.split())\n')
 V("C15-item-position-by-equality", "C15", "D29 re-opened: item position by list.index", "cincoconfig/fields/list_field.py",
   "        for index, other in enumerate(self):\n            if other is item:\n                return str(index)\n        return str(len(self))",
   "        try:\n            return str(self.index(item))\n        except ValueError:\n            return str(len(self))")
